@@ -60,6 +60,7 @@ CaseResult body_lookup(Chooser& ch, Stats* st) {
   size_t nd = s.ndim();
   bool special_knots = s.knot_class.find("repeat") != std::string::npos || s.knot_class.find("clamped") != std::string::npos || s.knot_class.find("extreme") != std::string::npos;
   if (st) { st->label("ndim:" + std::to_string(nd)); if (special_knots) st->label("knots:repeated_or_extreme"); if (s.knot_class.find("extreme") != std::string::npos) st->label("knots:extreme"); }
+  auto evf = t->get_evaluator<float>(); auto evd = t->get_evaluator<double>();
   for (int p = 0; p < 48 && r.fail.empty(); p++) {
     std::vector<double> x(nd); std::vector<std::string> kinds(nd);
     bool inside = true, nontrivial = special_knots;
@@ -78,10 +79,17 @@ CaseResult body_lookup(Chooser& ch, Stats* st) {
     if (st && nontrivial) { Hasher h; h.add(s.hash()); for (double v : x) h.addd(v); st->nontriv(h.h); }
     if (ok != inside) { r.fail = std::string("lookup ") + (ok ? "succeeded" : "failed") + " but the point is " + (inside ? "inside" : "outside") + " (first knot, last knot] : x=" + jarr(x); break; }
     double vcall = (*t)(x.data());
+    // the evaluator objects have the same lookup and the same convenience call operator
+    std::vector<int> cf(nd, -777), cd(nd, -777);
+    bool okf = evf.searchcenters(x.data(), cf.data()), okd = evd.searchcenters(x.data(), cd.data());
+    double vcallf = evf(x.data(), 0), vcalld = evd(x.data(), 0);
+    if (okf != ok || okd != ok) { r.fail = "lookup through an evaluator object " + std::string(okf != ok ? (okf ? "succeeded" : "failed") : (okd ? "succeeded" : "failed")) + " where the table's lookup did the opposite: x=" + jarr(x); break; }
     if (!ok) {
       if (!(vcall == 0.0)) { r.fail = "call operator returned " + jnum(vcall) + " instead of 0 after a failed lookup"; }
+      else if (!(vcallf == 0.0) || !(vcalld == 0.0)) { r.fail = "call operator of an evaluator object returned " + jnum(!(vcallf == 0.0) ? vcallf : vcalld) + " instead of 0 after a failed lookup"; }
       continue;
     }
+    if (cf != c || cd != c) { r.fail = "lookup through an evaluator object returned other centers than the table's lookup: x=" + jarr(x); break; }
     for (size_t d = 0; d < nd && r.fail.empty(); d++) {
       std::string e = check_center(s.dims[d], x[d], c[d]);
       if (!e.empty()) r.fail = "dim " + std::to_string(d) + ": " + e;
@@ -89,6 +97,9 @@ CaseResult body_lookup(Chooser& ch, Stats* st) {
     if (!r.fail.empty()) break;
     double v = t->ndsplineeval(x.data(), c.data(), 0);
     if (!same_bits(v, vcall) && !(std::isnan(v) && std::isnan(vcall))) r.fail = "call operator " + jnum(vcall) + " differs from ndsplineeval " + jnum(v);
+    double vf = evf.ndsplineeval(x.data(), c.data(), 0), vd = evd.ndsplineeval(x.data(), c.data(), 0);
+    if (r.fail.empty() && !same_bits(vf, vcallf) && !(std::isnan(vf) && std::isnan(vcallf))) r.fail = "call operator of the float evaluator " + jnum(vcallf) + " differs from its ndsplineeval " + jnum(vf);
+    if (r.fail.empty() && !same_bits(vd, vcalld) && !(std::isnan(vd) && std::isnan(vcalld))) r.fail = "call operator of the double evaluator " + jnum(vcalld) + " differs from its ndsplineeval " + jnum(vd);
   }
   js << "]}";
   r.json = js.str();
